@@ -18,6 +18,7 @@ import (
 	"go/token"
 	"math"
 	"math/big"
+	"regexp"
 	"sort"
 	"strings"
 )
@@ -170,13 +171,14 @@ func symAtom(name string, args ...poly) poly {
 	}
 	full := name + "(" + strings.Join(as, ", ") + ")"
 	symApps[full] = symApp{name, args}
-	if symWiden != nil && len(full) > symWidenLimit {
+	if symWiden != nil && len(full) > symWidenLimit && name != "atan2" {
 		// widening: a very large application is replaced by a symbol named after its content (equal
 		// expressions keep equal names) whose value under the reference valuation is recorded
 		if v, ok := symEvalAtom(full, symWiden); ok {
 			h := sha1.Sum([]byte(full))
 			short := fmt.Sprintf("h%x", h[:8])
 			symWiden[short] = v
+			symWideOf[short] = full
 			return polyVar(short)
 		}
 	}
@@ -188,6 +190,11 @@ func symAtom(name string, args ...poly) poly {
 var symWiden map[string]float64
 
 const symWidenLimit = 160
+
+// symWideOf: the application each abbreviation stands for (to ask what it depends on).
+var symWideOf = map[string]string{}
+
+var hashSym = regexp.MustCompile(`\bh[0-9a-f]{16}\b`)
 
 // symEval evaluates p at a valuation of its symbols (used only to choose a branch when a
 // comparison is not decided symbolically; the driver states the valuation in its evidence).
